@@ -3,8 +3,8 @@ package middleware
 import (
 	"bytes"
 	"fmt"
+	"html/template"
 	"net/http"
-	"text/template"
 )
 
 func SwaggerUIOAuth2Callback(opts SwaggerUIOpts, next http.Handler) http.Handler {
